@@ -25,6 +25,9 @@ func instance(t packet.Type, rng *rand.Rand, cred int) packet.Generic {
 	id := packet.ID(1 + rng.Intn(5)) // small id space: repeats are intended
 	if rng.Intn(6) == 0 {
 		id = packet.ID(1 + rng.Intn(65535))
+		if id == fenceID {
+			id-- // the fence SUBSCRIBE must stay recognisable by its id
+		}
 	}
 	switch t {
 	case packet.CONNECT:
